@@ -66,3 +66,50 @@ package support
 //@ requires [registry-built] r.componentsMap != nil
 //@ assigns nothing
 //@ ensures [contains] result == r.componentsMap.Dom[name]
+
+// ---- enumeration through Range (C09 preparation phase, C06 / C10 candidate enumeration) --------------------------------
+//   NamesKeyPos[k]: ghost position of key k in the collected names
+//@ ghost var NamesKeyPos map[string]int
+
+//@ func (*registry).GetSingletonNames$1
+//@ property C09 C10
+//@ assigns names, NamesKeyPos
+//@ ensures [collects-the-key] result && len(names) == len(old(names)) + 1 && names[len(names) - 1] == key && NamesKeyPos == store(old(NamesKeyPos), key, len(old(names)))
+//@ ensures [earlier-kept] forall(i, int, implies(0 <= i && i < len(old(names)), names[i] == old(names[i])))
+//@ ghost before call append: NamesKeyPos = store(NamesKeyPos, key, len(names))
+
+// GetSingletonNames: exactly the registered names, each once, in an unspecified order.
+//@ func (*registry).GetSingletonNames
+//@ property C09 C10
+//@ requires [registry-built] r.componentsMap != nil
+//@ assigns NamesKeyPos
+//@ ensures [only-registered] forall(i, int, implies(0 <= i && i < len(result), r.componentsMap.Dom[result[i]]), result[i])
+//@ ensures [every-registered] forall(k, string, implies(r.componentsMap.Dom[k], 0 <= NamesKeyPos[k] && NamesKeyPos[k] < len(result) && result[NamesKeyPos[k]] == k))
+//@ ensures [each-once] forall(i, int, forall(j, int, implies(0 <= i && i < j && j < len(result), result[i] != result[j])))
+//@ iteration 1 invariant [collected-are-visited] forall(i, int, implies(0 <= i && i < len(names), _visited[names[i]] && NamesKeyPos[names[i]] == i), names[i])
+//@ iteration 1 invariant [visited-are-collected] forall(k, string, implies(_visited[k], 0 <= NamesKeyPos[k] && NamesKeyPos[k] < len(names) && names[NamesKeyPos[k]] == k))
+
+//   MetasKey[i]: ghost: the registry key under which the i-th collected definition was delivered
+//@ ghost var MetasKey map[int]string
+
+// One delivered entry: the definition is collected exactly when every option accepts it.
+//@ func (*defaultDefinitionRegistry).GetMetas$1
+//@ property C06 C10
+//@ requires [entry] MetaOK(m) && m.Name() == k && forall(j, int, implies(0 <= j && j < len(opts), opts[j] != nil && callpre(opts[j], m)))
+//@ assigns metas, MetasPos, MetasKey
+//@ ensures [continues] result
+//@ ensures [collected-iff-accepted] implies(forall(j, int, implies(0 <= j && j < len(opts), call(opts[j], m))), len(metas) == len(old(metas)) + 1 && metas[len(metas) - 1] == m && MetasPos == store(old(MetasPos), k, len(old(metas))) && MetasKey == store(old(MetasKey), len(old(metas)), k))
+//@ ensures [rejected-otherwise] implies(!forall(j, int, implies(0 <= j && j < len(opts), call(opts[j], m))), metas == old(metas) && MetasPos == old(MetasPos) && MetasKey == old(MetasKey))
+//@ ensures [earlier-kept] len(metas) >= len(old(metas)) && forall(i, int, implies(0 <= i && i < len(old(metas)), metas[i] == old(metas[i])))
+//@ ensures [backing-fresh-or-same] backing(metas) == old(backing(metas)) || backing(metas) > old(top())
+//@ ghost before call append: MetasPos = store(MetasPos, k, len(metas))
+//@ ghost before call append: MetasKey = store(MetasKey, len(metas), k)
+
+// GetMetas refines the interface contract: sound, filtered, complete (ghost MetasPos), duplicate-free, any order.
+//@ func (*defaultDefinitionRegistry).GetMetas
+//@ property C06 C10 C07
+//@ implements container.DefinitionRegistry
+//@ assigns MetasPos, MetasKey
+//@ iteration 1 invariant [fresh-list] backing(metas) == 0 || backing(metas) > old(top())
+//@ iteration 1 invariant [collected-come-from-visited-entries] forall(i, int, implies(0 <= i && i < len(metas), _visited[MetasKey[i]] && metas[i] == r.metaMaps.Val[MetasKey[i]] && MetasPos[MetasKey[i]] == i && forall(j, int, implies(0 <= j && j < len(opts), call(opts[j], metas[i])))), metas[i])
+//@ iteration 1 invariant [accepted-visited-entries-are-collected] forall(n, string, implies(_visited[n] && forall(j, int, implies(0 <= j && j < len(opts), call(opts[j], r.metaMaps.Val[n]))), 0 <= MetasPos[n] && MetasPos[n] < len(metas) && metas[MetasPos[n]] == r.metaMaps.Val[n] && MetasKey[MetasPos[n]] == n))
